@@ -1,6 +1,7 @@
 package main
 
 import (
+	"context"
 	"errors"
 	"fmt"
 	"io"
@@ -48,6 +49,9 @@ func c10Records(c *mon.Ctx, r *mon.Rand) {
 	mode := []string{"plain", "cached", "both"}[r.Intn(3)]
 	opts := tally.ScopeOptions{Prefix: rc.Prefix, Separator: rc.Sep, Tags: copyTagMap(rc.Tags), OmitCardinalityMetrics: r.Bool()}
 	prec, crec := mon.NewPlainRec(true), mon.NewCachedRec(true)
+	// what a reporter says about its capabilities (a fan-out with a placeholder
+	// child says "not reporting") does not change what timers forward to it
+	prec.Caps, crec.Caps = mon.Caps(r.Bool(), r.Bool()), mon.Caps(r.Bool(), r.Bool())
 	if mode == "plain" || mode == "both" {
 		opts.Reporter = prec
 	}
@@ -279,8 +283,22 @@ func c10Exec(c *mon.Ctx, r *mon.Rand, withSleep bool) {
 				outcomes = append(outcomes, "error holding a nil pointer")
 			} else if r.Bool() {
 				retErr = errors.New(fmt.Sprintf("err-%d", i))
+				// errors an instrumented client call really returns: any non-nil error
+				// moves the error counter, whatever it is or wraps
+				switch r.Intn(8) {
+				case 0:
+					retErr = context.Canceled
+				case 1:
+					retErr = context.DeadlineExceeded
+				case 2:
+					retErr = fmt.Errorf("call %d: %w", i, context.Canceled)
+				case 3:
+					retErr = io.EOF
+				case 4:
+					retErr = fmt.Errorf("call %d: %w", i, io.ErrUnexpectedEOF)
+				}
 				wantErr++
-				outcomes = append(outcomes, "error")
+				outcomes = append(outcomes, "error "+retErr.Error())
 			} else {
 				wantOK++
 				outcomes = append(outcomes, "nil")
